@@ -391,3 +391,15 @@ func (g *typeGen) fill(v reflect.Value, depth int, mode string) {
 		}
 	}
 }
+
+// HookWrap and HookCart reach HookHolder as a member held by value and as a slice element of an
+// addressable struct: the first use of a type may come through either.
+type HookWrap struct {
+	N  int
+	In HookHolder
+}
+
+type HookCart struct {
+	Items []HookHolder
+	Last  *HookHolder
+}
